@@ -315,3 +315,6 @@ def _normalize_binary64_replay(env, cfg):
             if any(is_nonfinite(v) for v in out.values()):
                 bad.append((vals, out))
     env.claim('finite_for_every_nonzero_normaliser_including_subnormals', not bad, detail=str(bad[:1]))
+
+
+META['explanation'] += ' Further groups: bit-precise binary64 (z3 FP theory) normalisation - finite for every non-zero normaliser including subnormals; views re-read after another explanation follow the new state.'
